@@ -87,8 +87,16 @@ def mutate(rng, src, toks):
     real = [t for t in toks if t[0] not in ("EOF",)]
     if not real:
         return src
-    k = rng.below(3)
+    k = rng.below(4)
     t = rng.choice(real)
+    if k == 3:
+        # a line break / separator / comment right after an opener, operator or separator
+        cand = [x for x in real if src[x[1]:x[2] + 1] in ("[", "(", "{", ",", ":", ":=", "=", "+", "-", "*", "==", "&&", "||", "?", "!", "in",
+                                                          "return", "case", ".", "<-", "|")]
+        if cand:
+            t = rng.choice(cand)
+            return src[:t[2] + 1] + rng.choice(["\n", "\n\n", "\r\n", ";", " \n ", "\n#c\n", "/*c*/\n"]) + src[t[2] + 1:]
+        k = 1
     junk = rng.choice(["(", ")", "{", "}", "[", "]", ",", ":=", "=", "+", "if", "for", "func", "return", "1", "x", "\"s\"", "`a\nb`",
                        "switch", "case", "?", ":", ";", "\n", "in", "..", "@", "0x", "'{'", "break", "else", "=>", "/*"])
     if k == 0:
